@@ -17,39 +17,42 @@ theorem clusters_last_saved (render : Cell → String) (d : Disk) (ops : List Op
 /-- … and, for every metadata field ever saved, exactly the last saved mapping of that field
 (None entries dropped, ids ascending), whatever was saved before or for other fields —
 refinement of the directory to the abstract "last write wins" state, for any renderer/parser pair
-that round-trips values and integers. -/
+that round-trips values and integers — and whatever legacy `.csv` files (any names, any content,
+also ones carrying the same field) are present: the saved `.tsv` wins. -/
 theorem metadata_last_saved (render : Cell → String) (parse : String → Cell)
     (hrt : ∀ c, parse (render c) = c) (hne : ∀ c, render c ≠ "")
     (hid : ∀ n : Nat, parse (toString n) = .int n)
+    (csvs : List (FName × File)) (hcsv : ∀ p ∈ csvs, p.1.2 = false)   -- any legacy CSV files, any content
     (ops : List Op) (hown : OwnOps ops) (field : String) (vals : List (Nat × Cell))
     (hf : (absRun ⟨[], []⟩ ops).fields.lookup field = some vals)
-    (hinfo : field ≠ "info") :   -- `cluster_info.tsv` is deliberately ignored on load
-    fieldView parse (run render ⟨[], [], false⟩ ops) field =
-      some (vals.map fun p => (Cell.int p.1, p.2)) ∨ vals = [] :=
-  Lemmas.metadata_last_saved render parse hrt hne hid ops hown field vals hf hinfo
+    (hinfo : field ≠ "info")     -- `cluster_info.tsv` is deliberately ignored on load
+    (hvals : vals ≠ []) :
+    fieldView parse (run render ⟨[], csvs, false⟩ ops) field =
+      some (vals.map fun p => (Cell.int p.1, p.2)) :=
+  Lemmas.metadata_last_saved render parse hrt hne hid csvs hcsv ops hown field vals hf hinfo hvals
 
 /-- Malformed or empty metadata files never prevent loading and never change what is shown for
 the other files: an unreadable file contributes nothing. -/
-theorem unreadable_ignored (parse : String → Cell) (files : List (String × File)) (stem : String) :
-    metadataView parse (putFile files stem .unreadable) =
-      metadataView parse (files.filter fun p => p.1 != stem) :=
-  Lemmas.unreadable_ignored parse files stem
+theorem unreadable_ignored (parse : String → Cell) (files : List (FName × File)) (name : FName) :
+    metadataView parse (putFile files name .unreadable) =
+      metadataView parse (files.filter fun p => p.1 != name) :=
+  Lemmas.unreadable_ignored parse files name
 
 /-- `cluster_info` is never read as metadata. -/
-theorem cluster_info_excluded (parse : String → Cell) (files : List (String × File)) (f : File) :
-    metadataView parse (putFile files "cluster_info" f) =
-      metadataView parse (files.filter fun p => p.1 != "cluster_info") :=
-  Lemmas.cluster_info_excluded parse files f
+theorem cluster_info_excluded (parse : String → Cell) (files : List (FName × File)) (tsv : Bool) (f : File) :
+    metadataView parse (putFile files ("cluster_info", tsv) f) =
+      metadataView parse (files.filter fun p => p.1 != ("cluster_info", tsv)) :=
+  Lemmas.cluster_info_excluded parse files tsv f
 
 /-- Saving metadata, exporting the subset, closing and reloading never touch the assignments or
 any other file (frame). -/
-theorem step_frame (render : Cell → String) (d : Disk) (op : Op) (stem : String)
+theorem step_frame (render : Cell → String) (d : Disk) (op : Op) (name : FName)
     (hs : match op with
-      | .saveMeta field _ => stem ≠ "cluster_" ++ field
-      | .writeFile s _ => stem ≠ s
+      | .saveMeta field _ => name ≠ ("cluster_" ++ field, true)
+      | .writeFile s _ => name ≠ s
       | _ => True) :
-    (step render d op).files.lookup stem = d.files.lookup stem :=
-  Lemmas.step_frame render d op stem hs
+    (step render d op).files.lookup name = d.files.lookup name :=
+  Lemmas.step_frame render d op name hs
 
 /-! Non-vacuity -/
 example :
@@ -57,7 +60,13 @@ example :
     (run render ⟨[0, 1], [], false⟩
       [.saveMeta "group" [(3, some (.text "good")), (1, some (.text "mua")), (2, none)],
        .saveClusters [1, 1], .reload, .saveMeta "group" [(1, some (.text "noise"))], .close, .reload]).files =
-      [("cluster_group", .table ["cluster_id", "group"] [["1", "noise"]])] := by decide
+      [(("cluster_group", true), .table ["cluster_id", "group"] [["1", "noise"]])] := by decide
+-- a legacy CSV carrying the same field does not hide the saved mapping
+example :
+    let render : Cell → String := fun c => match c with | .int i => toString i | .float t => s!"F{t}" | .text s => s
+    let parse : String → Cell := fun s => if s == "1" then .int 1 else .text s
+    fieldView parse (run render ⟨[], [(("cluster_groups", false), .table ["cluster_id", "group"] [["1", "unsorted"]])], false⟩
+      [.saveMeta "group" [(1, some (.text "good"))]]) "group" = some [(.int 1, .text "good")] := by decide
 example : cleanMeta [(3, some (.int 5)), (1, some (.int 7)), (3, none), (2, some (.int 1))] =
     [(1, .int 7), (2, .int 1)] := by decide
 
